@@ -88,7 +88,7 @@ class ResetFlow:
                         cal = i.get('callee') or ''
                         if cal.startswith('llvm.dbg') or cal.startswith('llvm.lifetime'):
                             continue
-                        args = i['ops'][:-1] if not cal else i['ops']
+                        args = i['ops']
                         if cal.startswith(MEMC + MEMW) or cal in ENCW:
                             f = self.field_of(F, args[0], cp)
                             if f:
@@ -212,7 +212,7 @@ class ResetFlow:
             cal = i.get('callee') or ''
             if cal.startswith(('llvm.dbg', 'llvm.lifetime', 'br_verif')):
                 return
-            args = i['ops'] if cal else i['ops'][:-1]
+            args = i['ops']
             if cal.startswith(MEMW):
                 f = self.field_of(F, args[0], cp)
                 if f:
